@@ -94,7 +94,7 @@ pub struct MigShape {
     pub ask_attrs: usize,
     pub bid_attrs: usize,
 }
-const MDIMS: [usize; 5] = [4, 7, 7, 3, 3];
+const MDIMS: [usize; 5] = [4, 8, 8, 3, 3];
 
 fn m_approvers(i: usize) -> Option<Vec<&'static str>> {
     [None, Some(vec![]), Some(vec!["approver3", "approver"]), Some(vec!["X"])][i].clone()
@@ -107,7 +107,10 @@ fn m_pair(i: usize, acct: &'static str) -> (Option<&'static str>, Option<&'stati
         3 => (Some("0.3"), None),
         4 => (None, Some(acct)),
         5 => (Some("abc"), Some(acct)),
-        _ => (Some("0.3"), Some("X")),
+        6 => (Some("0.3"), Some("X")),
+        // a rate padded with a blank: whether that is "parseable" is a matter of taste (no accept /
+        // refuse verdict), but an accepted one must leave a usable configuration
+        _ => (Some("0.25 "), Some(acct)),
     }
 }
 fn m_attrs(i: usize) -> Option<Vec<&'static str>> {
@@ -169,7 +172,7 @@ impl MigShape {
                 (None, None) => {}
                 (Some(r), Some(a)) => {
                     if !(r.is_empty() && a.is_empty()) {
-                        if parse_dec(r).is_none() {
+                        if parse_dec(r).is_none() && dec_is_clear(r) {
                             f.push("rate-unparsable");
                         }
                         if !valid_addr(a) {
@@ -183,6 +186,12 @@ impl MigShape {
         f
     }
     /// the configuration the request must produce from `old`
+    pub fn undecided(&self) -> bool {
+        [(self.ask_pair, "askfee2"), (self.bid_pair, "bidfee2")].iter().any(|(p, a)| match m_pair(*p, a) {
+            (Some(r), Some(ac)) => !(r.is_empty() && ac.is_empty()) && parse_dec(r).is_none() && !dec_is_clear(r),
+            _ => false,
+        })
+    }
     pub fn apply(&self, old: &Value) -> Value {
         let mut n = old.clone();
         if let Some(a) = m_approvers(self.approvers) {
@@ -494,6 +503,7 @@ pub fn judge(chain: &crate::chain::Chain, twin: &Store, native: &Store, version:
     out.migrate_calls += 1;
     let cls = classify(version);
     let bad = shape.invalid();
+    let undecided = bad.is_empty() && shape.undecided();
     let doc = || replay_doc(twin, version, shape, Some(native));
     let has_v2 = twin != native;
     out.c(&format!("C14/version-class/{cls:?}"));
@@ -504,14 +514,14 @@ pub fn judge(chain: &crate::chain::Chain, twin: &Store, native: &Store, version:
         }
         Outcome::Refused(e) => {
             out.refused += 1;
-            if matches!(cls, VClass::InWindow | VClass::AtOrAfterChange) && bad.is_empty() {
+            if matches!(cls, VClass::InWindow | VClass::AtOrAfterChange) && bad.is_empty() && !undecided {
                 out.v("C14", format!("C14/supported-version-valid-message-refused/{}", e.split(':').next().unwrap_or("").trim().replace(' ', "-")), format!("version {version}: {e}"), doc());
             }
             return;
         }
         Outcome::Aborted => {
             out.aborted += 1;
-            if matches!(cls, VClass::InWindow | VClass::AtOrAfterChange) && bad.is_empty() {
+            if matches!(cls, VClass::InWindow | VClass::AtOrAfterChange) && bad.is_empty() && !undecided {
                 out.v("C14", "C14/supported-version-valid-message-refused/panic".into(), format!("version {version}"), doc());
             }
             return;
@@ -527,6 +537,27 @@ pub fn judge(chain: &crate::chain::Chain, twin: &Store, native: &Store, version:
         out.v("C14", format!("C14/accepted-invalid-message/{b}"), shape.to_value().to_string(), doc());
     }
     let post = &a.store;
+    if undecided {
+        // an override whose spelling is a matter of taste was accepted: the configuration must still work
+        out.c("C14/undecided-override-accepted");
+        let book = decode_book(post);
+        if let Some(info) = &book.info {
+            let inc = info.increment().max(1);
+            let rate = info.bid_fee_info.as_ref().and_then(|f| parse_dec(f.rate.trim()));
+            let total = inc; // price 1
+            let fee = match &info.bid_fee_info {
+                None => Some(0),
+                Some(_) => rate.and_then(|r| r.mul(Rat::int(total)?)).and_then(|x| x.round_half_away()),
+            };
+            if let Some(fee) = fee {
+                let act = Act::new("buyer1", vec![(total + fee, "q1")], Req::CreateBid { id: crate::scenario::ID_UNUSED.into(), base: info.base_denom.clone(), fee: if fee > 0 { Some(("q1".into(), fee)) } else { None }, price: "1".into(), quote: "q1".into(), quote_size: total, size: inc });
+                let o2 = crate::scenario::step_act(post, chain, &act);
+                if !o2.is_accepted() {
+                    out.v("C14", "C14/accepted-override-leaves-the-configuration-unusable".into(), format!("{} -> {}", act.describe(), o2.short()), doc());
+                }
+            }
+        }
+    }
     // every ask exactly as it was; no key other than config / version / bids touched
     let mut keys: Vec<&Vec<u8>> = pre.0.keys().chain(post.0.keys()).collect();
     keys.sort();
